@@ -208,6 +208,14 @@ def laws(ctx, model, data, where, prop='C03', full=True):
             ctx.check(err.size == 0 or err[k] <= 1, 'logpdf.is-log', prop + ':logpdf-not-log-pdf',
                       lambda: dict(where, at=inner[pos][k], logpdf=lp[pos][k], log_of_pdf=float(np.log(pi[pos][k]))))
 
+    # the short names are the same functions
+    xa = np.quantile(data, [0.2, 0.6])
+    for long_, short in (('probability_density', 'pdf'), ('cumulative_distribution', 'cdf'), ('percent_point', 'ppf')):
+        arg = xa if short != 'ppf' else np.array([0.2, 0.6])
+        oa, a = ctx.call(getattr(model, long_), arg)
+        ob, b = ctx.call(getattr(model, short), arg)
+        ctx.check(oa == ob and (not oa or np.array_equal(np.asarray(a), np.asarray(b), equal_nan=True)), 'alias.same-function',
+                  prop + ':alias-%s-differs-from-%s' % (short, long_), where)
     # quantile function ----------------------------------------------------------------------------
     methods = [None]
     if type(model).__name__ == 'GaussianKDE' and full:
